@@ -13,92 +13,110 @@ CHECKS = {
             "Stateless model checking of the real ConnectionManager on a deterministic virtual-time asyncio loop (one step = one callback): every environment script up to the bound (attempt outcomes succeed/fail/slow x connection "
             "lifetimes) is run once without close() and once per event-loop step k with close() executed before step k - the complete set of interleavings of one external close() with the loop's schedule - with prefix-divergence and "
             "double-replay determinism checks; invariants on every step (<=1 live transport, no attempt while one is live or in flight or after close(), <=8 pending tasks) and at quiescence (reconnect after every failure/loss; "
-            "connect_loop() returns at the virtual instant of close(), every transport closed, no task left); plus 2000-5000-cycle runs for the task bound.",
+            "connect_loop() returns at the virtual instant of close(), every transport closed, no task left); plus 2000-5000-cycle runs for the task bound."
+            " Also: four periodic scripts of 24 (thorough 60) attempts with close() at every step, and outages of 31..128 failures followed by a success with close() at the last 40 steps.",
             "Trusted: the explorer owns clock, callback order and factory (fake transport behaves like a real one: close() schedules one connection_lost); one external close() per run; CPython 3.12 asyncio internals.",
             "exhaustive schedule exploration (close() at every event-loop step of every bounded environment script) on the real code", "DESIGN.md 4/C17", "E6+E4"),
     "C18": ("model_checking",
             "Strategy object: explicit-state BFS over snapshots of the real ExponentialBackOff under {failure, reset} to depth 14 (all 2^15-1 sequences land in the 15 visited states) with every max_delay 1..3600 evaluated in every state. "
             "Manager: every script of outcomes {fail, succeed-then-lost after 1/3/10 s} up to length 6-8 x 5 (threshold, sleep, max_delay) settings on the virtual-time loop with the manager's wall clock substituted by the virtual clock; "
-            "the time stamps of factory calls must satisfy the capped exponential back-off and loss-breaker bounds.",
+            "the time stamps of factory calls must satisfy the capped exponential back-off and loss-breaker bounds."
+            " Also: run-length families f^k, f^k r, f^k r f^j for k = 1..200 on the strategy object; manager scripts with outages of 30..100 failures followed by a reconnect, attempts that take 0.4..61 s to fail, 8 (threshold, sleep, max_delay) settings.",
             "Trusted: virtual clock substitution through han.meter_connection.datetime; slack 1e-6 s.", "explicit-state exploration of the strategy object + exhaustive bounded environment scripts on the virtual-time loop", "DESIGN.md 4/C18", "E2+E6"),
     "C07": ("model_checking",
             "Bounded-exhaustive input shapes for the Aidon decoder: 8 documented list layouts, every prefix, every rotation, the reversal and every element alone; per integer type (u32, i16, u16) a boundary/bit-pattern/seed alphabet "
-            "x every scaler -3..3, alone and inside list 3, and the complete 2^16 range of the i16 and u16 registers; text fields; unknown codes; frame vs bare body. Expected dictionaries from exact Fraction arithmetic.",
+            "x every scaler -3..3, alone and inside list 3, and the complete 2^16 range of the i16 and u16 registers; text fields; unknown codes; frame vs bare body. Expected dictionaries from exact Fraction arithmetic."
+            " Also: every pair of numeric elements x value alphabets x scaler pairs, a lattice of u32 values over the whole range, and a dictionary of words harvested from the source under test as identification strings.",
             "Trusted: reference encoders and the documented C.D.E -> name table (mc/ref/cosem.py), bound byte for byte to the 14 captured notification bodies of the test suite. 32-bit registers on boundaries and bit patterns, not all 2^32.",
             "bounded-exhaustive shape x value enumeration on the real decoder with an exact-arithmetic reference", "DESIGN.md 4/C07", "E5"),
     "C08": ("model_checking",
             "The five positional Kaifa layouts and the OBIS-tagged layout with all-distinct registers (a swap is visible), per position the u32 boundary/bit-pattern/seed alphabet, all-equal rows, text alphabets, complete 2^16 sweeps "
-            "of half-words of current and voltage registers; bare body and frame (APDU date-time vs list clock).",
+            "of half-words of current and voltage registers; bare body and frame (APDU date-time vs list clock)."
+            " Also: full product of identification-string lengths {0,1,5,6,7,8,11,12,13,16,32}, every pair of numeric positions x 8x8 values, a 32-bit lattice for three registers, source-harvested words in every text field.",
             "Trusted: as C07 (mc/ref/cosem.py bound to tests/test_kaifa.py fixtures).", "bounded-exhaustive shape x value enumeration on the real decoder with an exact-arithmetic reference", "DESIGN.md 4/C08", "E5"),
     "C09": ("model_checking",
             "Five documented Kamstrup layouts x null-data padding of 1/4 octets after each element position and everywhere x 9 meter type numbers (incl. current-transformer types 685...) x u32/u16 alphabets per register for a standard "
-            "and a CT meter x complete 2^16 sweep of a current register; bare body and frame.",
+            "and a CT meter x complete 2^16 sweep of a current register; bare body and frame."
+            " Also: padding sweep 0..130/200/255 null-data octets, every pair of registers x 7x7 values, 32-bit lattice, source-harvested words, APDU-vs-list-clock relations (equal civil fields / equal instants with different deviations).",
             "Trusted: as C07 (bound to tests/test_kamstrup.py fixtures); register/100 is taken literally as the correctly rounded quotient.", "bounded-exhaustive shape x value enumeration on the real decoder with an exact-arithmetic reference", "DESIGN.md 4/C09", "E5"),
     "C10": ("model_checking",
             "31 680 date-times from the full product of reduced field alphabets plus complete single-field sweeps (all 1441 deviations and 'unspecified', all 256 status octets, all hundredths, every day of 2023/2024, times of day, all day-of-week values) "
-            "placed in each of the six syntactic positions (APDU tagged/untagged, Aidon, Kaifa positional, Kaifa OBIS, Kamstrup clock elements), compared with == and utcoffset().",
+            "placed in each of the six syntactic positions (APDU tagged/untagged, Aidon, Kaifa positional, Kaifa OBIS, Kamstrup clock elements), compared with == and utcoffset()."
+            " Also: every 29 February of all leap years, first/last day of every month of all century years, the complete calendar 1..9999 in one position (thorough), and sequences of consecutive date-times naming one instant in different offsets.",
             "Trusted: reference date-time encoder; no full cross product of complete field ranges.", "bounded-exhaustive field-product enumeration x 6 syntactic positions on the real decoders", "DESIGN.md 4/C10", "E5"),
     "C11": ("model_checking",
             "Grammar-shape enumeration of P1 data blocks (1..3 data sets per line, 1..3 values per set over 5 value kinds, LF/CRLF, blank lines), every presence pattern of A,B,F over all 30 known C.D.E codes and unknown ones x unit letter-case variants, "
             "the complete grid of decimals with 0..3 fraction digits for 25 integer parts x leading zeros, clock values, 270 identification lines; each block through parse, decode_p1_readout_content, decode_p1_readout and both AutoDecoder entry points "
-            "against an exact (Fraction) reference.",
+            "against an exact (Fraction) reference."
+            " Also: leading zeros / value lengths 0..130, 255..257, 1000, 4000; relations between data sets of one block (same address twice, same field name from two addresses); source-harvested words as values and ids.",
             "Trusted: exact reference parser (bound to the data sets of the 5 captured readouts).", "bounded-exhaustive grammar-shape enumeration with an exact-arithmetic reference", "DESIGN.md 4/C11", "E5"),
     "C12": ("model_checking",
             "Explicit-state exploration of the real AutoDecoder to a fixpoint: 8 states (remembered decoder) x a pool of 120+ payloads (28 captured messages, reference-built lists of every supported shape in frame and body form, 5 P1 blocks, junk): every "
-            "(state, event) transition is executed and judged against the seven decoder functions called individually; both entry points with HdlcFrame/DlmsMessage wrappers. Covers histories of any length over the pool.",
+            "(state, event) transition is executed and judged against the seven decoder functions called individually; both entry points with HdlcFrame/DlmsMessage wrappers. Covers histories of any length over the pool."
+            " States are digests of the complete AutoDecoder snapshot (a hidden counter enlarges the state space and is explored up to a level cap); exhaustive histories of length 3 on one live object are compared with the transition table; FCS-colliding frame pairs through decode_message; results compared strictly (datetime offsets, number types).",
             "Trusted: the AutoDecoder's future depends only on its snapshotted attributes; accept/reject observed by calling the public decoder functions.", "explicit-state model checking to a fixpoint (all reachable states x all events)", "DESIGN.md 4/C12", "E2"),
     "C13": ("model_checking",
             "Every sequence of up to 3-4 segments over a 10-segment alphabet (valid/header-only/bad-FCS/wrong-length/stuffed frames, valid/bad-CRC/checksum-less readouts, binary and ASCII noise) x 7 candidate reader lists x both protocol classes x "
-            "chunkings (one-shot, octet-wise, every single cut, fixed 2..7, pairs of cuts); the queue is compared with the expectation computed from independent reader instances, plus the completeness clause on clean streams.",
+            "chunkings (one-shot, octet-wise, every single cut, fixed 2..7, pairs of cuts); the queue is compared with the expectation computed from independent reader instances, plus the completeness clause on clean streams."
+            " Also: run lengths 1..40 (thorough 130) of invalid/valid messages around valid ones, 1..3000 data_received() calls of noise before a clean stream, and a valid frame that carries a valid readout.",
             "Trusted: the expectation uses fresh real readers (the property is relative to the readers' own output).", "bounded-exhaustive enumeration of segment sequences x chunkings x configurations on the real protocols", "DESIGN.md 4/C13", "E1"),
     "C15": ("model_checking",
             "Every truncation and every 1-octet substitution (16 structural values, b+-1, b^1; thorough: 2-octet structural substitutions) of genuine messages, and every ASCII string up to length 4-7 over {1 . ( ) * x LF}, each given to the real AutoDecoder in "
-            "each of its 8 states and through both entry points under a deterministic call-count budget (400 n + 40 000 Python calls; observed maximum about 4 % of it): no exception, dict or None, terminates.",
+            "each of its 8 states and through both entry points under a deterministic call-count budget (400 n + 40 000 Python calls; observed maximum about 4 % of it): no exception, dict or None, terminates."
+            " Also: each remembered decoder reached by k genuine messages (k in {1,6}, thorough up to 64), well-formed messages with clocks at year 1 / 9999 in all six date-time positions, source-harvested words alone and inside P1-looking text.",
             "Trusted: the call-count budget as proxy for time and memory; RLIMIT_AS backstop.", "deviation-bounded exhaustive mutation of messages x all decoder states with a deterministic termination monitor", "DESIGN.md 4/C15", "E3"),
     "C20": ("model_checking",
             "All 16 presence patterns of the optional groups x group values over {0,1,9,10,99,100,255} in both syntaxes (3.3e5 codes), complete 0..255 sweep of every group, format->parse round trip whenever optional groups are absent or non-zero, "
-            "every string up to length 6-8 over {1 . - : * a space} without digit.digit (must raise ValueError), all 5.3e6 ordered pairs of 2304 tuples for ==/hash.",
+            "every string up to length 6-8 over {1 . - : * a space} without digit.digit (must raise ValueError), all 5.3e6 ordered pairs of 2304 tuples for ==/hash."
+            " Also: objects derived from a formatted original (filter_group_cde, copy, Obis(as_tupple())) must behave like fresh objects.",
             "Trusted: reference formatter mc/ref/obis.py.", "exhaustive enumeration of the bounded input space", "DESIGN.md 4/C20", "E5"),
     "C01": ("model_checking",
             "Bounded-exhaustive exploration of the real HdlcFrameReader: every octet string up to length N over a 5/7-symbol alphabet that contains "
             "complete valid frames, every sequence of up to 6-8 frame tokens, and every stream within <=1-2 edits of realistic multi-frame streams, "
             "each under one-shot, octet-wise and every single cut, in all four configurations; every returned frame is checked against an independent "
-            "reference (validity = length field + bit-serial FCS, exact header/payload octets) and every execution against the containment matcher.",
+            "reference (validity = length field + bit-serial FCS, exact header/payload octets) and every execution against the containment matcher."
+            " Also: 701 frames covering every octet value in every FCS/HCS position and special whole check sequences (0000, FFFF, flag/escape pairs), alone and after multi-KiB periodic noise; escape-aligned cut pairs with middle chunks of 1..1024 octets on mid-size and 2047-octet frames.",
             "Trusted: reference model mc/ref/hdlc.py (bound to the captured frames of tests/test_hdlc.py); data independence of the reader for octets outside the reduced alphabets.",
             "bounded-exhaustive enumeration of input strings x chunkings on the real reader, reference-model oracle", "DESIGN.md 4/C01", "E1+E3"),
     "C02": ("model_checking",
             "Every frame shape of a product space (type/S x address lengths 1..4 x 1..4 x control x 7 payload contents x payload lengths incl. the 2047-octet maximum), all ordered "
             "pairs and triples of a 6-frame pool with 1..3 fill flags and leading flag-free noise, each stream under one-shot, octet-wise, every single cut, fixed sizes 2..9 x every phase "
-            "and every pair of cuts (short streams); the real reader must return exactly the frames sent, valid, with the builder's fields.",
+            "and every pair of cuts (short streams); the real reader must return exactly the frames sent, valid, with the builder's fields."
+            " Also: every fill length 1..130 (and 255..4096), every payload length 0..300 and every 7th (thorough: every) length up to 2038, the check-sequence octet sweep, and payloads that look like protocol traffic (valid frame between flags, stuffed frame, P1 readout, abort sequence).",
             "Trusted: frame builder and the transcription of the statement's domain restrictions for the non-stuffing configurations (mc/ref/hdlc.py clean_domain).",
             "zero-deviation exhaustive chunking enumeration over a bounded-exhaustive space of clean streams", "DESIGN.md 4/C02", "E3"),
     "C04": ("model_checking",
             "For 8 readout shapes the checksum field is replaced by every one of the 65 536 four-hex-digit values (plus letter-case variants), every single bit is flipped (pairs of bits in the thorough tier), "
             "and 48 edge-case identification lines are substituted; each readout is evaluated as DataReadout(bytes) and as returned by the real ModeDReader under one-shot, octet-wise and every single cut, "
-            "against an independent dissection (first '!', CRC-16/ARC over '/'..'!', identification syntax).",
+            "against an independent dissection (first '!', CRC-16/ARC over '/'..'!', identification syntax)."
+            " Every readout is judged as is, on a clone whose other accessors were used first, and when asked twice; readouts obtained from readers with history (short noise and the 8-20 KiB periodic noises that trip the overflow guard) go through the same oracle.",
             "Trusted: mc/ref/p1.py and mc/ref/fcs.py crc16_arc (bound to the captured readouts of tests/test_dlde.py).",
             "complete enumeration of the 2^16 checksum field and of all single-bit faults x chunkings on the real code", "DESIGN.md 4/C04", "E5+E3"),
     "C05": ("model_checking",
             "Sequences of 1..3 well-formed readouts (7 shapes, 27 B..6 KiB), every proper suffix of a readout as leading tail, and long homogeneous/alternating streams (40 KiB quick, up to 300 KiB thorough) under "
-            "one-shot, octet-wise, every single cut, every pair of cuts and every fixed chunk size k x every phase; the real ModeDReader must return every readout once, in order, byte-identical and valid.",
+            "one-shot, octet-wise, every single cut, every pair of cuts and every fixed chunk size k x every phase; the real ModeDReader must return every readout once, in order, byte-identical and valid."
+            " Also: identification-line variants (0/1/2 escape sequences x id length 0/1/15/16), one data line of 0..199 and up to 7900 characters, 0..280 data lines.",
             "Trusted: readout builder mc/ref/p1.py. For chunk sizes above 96 the phases are the first/last 32 and 48 evenly spaced ones, not all.",
             "zero-deviation exhaustive chunk-size x phase enumeration on long streams of the real reader", "DESIGN.md 4/C05", "E3"),
     "C06": ("model_checking",
             "Explicit-state graph of the real reader (nodes = digests of complete object snapshots) to depth N over octet and token alphabets, all four configurations, plus the chunk-commutation check: from every "
             "node every chunk of 2..k events in one read() must give the outputs of the event-at-a-time path; by induction this decides every splitting of every stream up to the bound. Plus every <=1-2-edit "
-            "stream of realistic multi-frame streams and over-long frames compared across one-shot, octet-wise, every single cut and pairs of cuts.",
+            "stream of realistic multi-frame streams and over-long frames compared across one-shot, octet-wise, every single cut and pairs of cuts."
+            " Also: mid-size frames with every pair of cuts, the check-sequence octet sweep under every single cut, escape-aligned cut pairs on 2047-octet frames, and long clean histories (1..260, thorough 1100 frames) followed by a twist with a cut at each of the last ~150 positions.",
             "Trusted: snapshot covers every attribute reachable from the reader (mc/snap.py), so merging states is sound; chunk-only states are added to the graph.",
             "explicit-state model checking of the implementation (BFS over snapshot digests) + chunk commutation", "DESIGN.md 4/C06", "E2+E3"),
     "C14": ("model_checking",
             "Every octet string up to length 5-6 over 9 structural octets (HDLC) and every sequence of up to 4-5 tokens over a 15-token structural alphabet (P1), plus every stream within <=1-2 edits of genuine "
             "readouts and frames, each one-shot and octet-wise through the bare readers (4 HDLC configurations) and both protocol classes with [HDLC,P1] and [P1,HDLC]; no exception may escape read(), "
-            "data_received() or the four message properties, and a clean suffix must still be delivered.",
+            "data_received() or the four message properties, and a clean suffix must still be delivered."
+            " Also: 8-20 KiB periodic noise (P1) / 2-5 KiB (HDLC) in small chunks followed by a clean stream.",
             "Trusted: the alphabets contain every structural character the statement names; bytes outside them are covered only through the edit alphabets.",
             "bounded-exhaustive enumeration of noise strings on the real readers and protocols, exception/usable oracle", "DESIGN.md 4/C14", "E1+E3"),
     "C16": ("model_checking",
             "Every noise prefix up to the bound over the reduced octet alphabets and the token alphabets, every truncation of every pool message (also followed by 7D, 7E, 7D7E), announced-length headers, 1-edit messages, "
             "long flag-free / LF-free runs, each followed by a clean suffix and run one-shot, noise-octet-wise, with cuts at the boundary -2..+2 and octet-wise; the valid messages returned must contain every suffix "
-            "message but possibly the first (stuffing, P1) / every flag-free frame starting more than 2047 + its length after the noise (no stuffing).",
+            "message but possibly the first (stuffing, P1) / every flag-free frame starting more than 2047 + its length after the noise (no stuffing)."
+            " Also: suffix frames from the check-sequence octet sweep, long periodic noise prefixes, and 5-6 KiB readouts in the P1 suffix.",
             "Trusted: suffix construction (own opening and closing flag per frame; the shared-flag form is checked and reported under its own kind).",
             "bounded-exhaustive enumeration of noise prefixes x clean suffix on the real readers", "DESIGN.md 4/C16", "E1"),
     "C19": ("model_checking",
@@ -111,7 +129,8 @@ CHECKS = {
             "Complete enumeration of the FCS step function's domain (all 2^16 registers x 2^8 octets = all 2^24 "
             "three-octet messages through the public update()), all 2^16 residues with exact and bit-flipped "
             "trailers, and complete small domains of compute_checksum windows, each compared with a bit-serial "
-            "RFC 1662 reference. Exhaustive for the step function, hence (induction on length) for every byte string.",
+            "RFC 1662 reference. Exhaustive for the step function, hence (induction on length) for every byte string."
+            " Also: windows on 9000-octet buffers around powers of two and 2047..2049, 70 000-octet incremental runs, and re-use of one bytes/bytearray object with in-place changes between calls.",
             "Trusted: the bit-serial reference (mc/ref/fcs.py, anchored to the X-25 check value) and the induction "
             "argument from the complete step-function domain to all strings.",
             "exhaustive state-space enumeration of the FCS register machine (2^24 transitions) on the real code",
